@@ -100,14 +100,50 @@ def render_flow(f, c1, c2, st):
     return '\n'.join(lines) + '\n'
 
 
+def _other_queries(m):
+    """call the semantic helpers with the flags the fact extraction does not use"""
+    for n in record.walk(m):
+        t = n.type
+        if t == 'name':
+            n.is_definition(include_setitem=True)
+            n.get_definition(import_name_always=True, include_setitem=True)
+            n.get_definition(import_name_always=False, include_setitem=True)
+        elif t == 'expr_stmt':
+            n.get_defined_names(include_setitem=True)
+            n.get_rhs()
+            list(n.yield_operators())
+        elif t in ('for_stmt', 'with_stmt', 'sync_comp_for', 'comp_for', 'del_stmt', 'namedexpr_test'):
+            if hasattr(n, 'get_defined_names'):
+                n.get_defined_names(include_setitem=True)
+        elif t in ('funcdef', 'lambdef'):
+            n.get_params()
+            list(n.iter_yield_exprs())
+            list(n.iter_return_stmts())
+            list(n.iter_raise_stmts())
+            n.is_generator()
+        elif t in ('import_name', 'import_from'):
+            n.get_defined_names(include_setitem=True)
+            n.get_paths()
+            n.is_nested()
+    m.get_used_names()
+
+
 def observe(tid, text, origin):
-    tr = {'id': tid, 'kind': 'facts', 'pfacts': {}, 'afacts': {}, 'raised': False, 'text': text, 'origin': origin, 'exc': ''}
+    tr = {'id': tid, 'kind': 'facts', 'pfacts': {}, 'afacts': {}, 'raised': False, 'text': text, 'origin': origin, 'exc': '',
+          'stable': True}
     af = facts.ast_facts(text)
     try:
         g, m = record.parse(text, VERSION)
         if any(n.type in ('error_node', 'error_leaf') for n in record.walk(m)):
             return None
         pf = facts.parso_facts(m)
+        # the helpers are queries: asking other questions in between (non-default flags, every other helper of the
+        # node) must not change the answers - a second extraction after such a pass has to give the same facts
+        _other_queries(m)
+        pf2 = facts.parso_facts(m)
+        tr['stable'] = all(sorted(pf[k]) == sorted(pf2[k]) for k in facts.KINDS)
+        if not tr['stable']:
+            tr['unstable_kind'] = [k for k in facts.KINDS if sorted(pf[k]) != sorted(pf2[k])][0]
     except Exception as e:  # noqa
         tr['raised'] = True
         tr['exc'] = record.exc_key(e)
@@ -182,7 +218,7 @@ def run(tier):
                 skipped += 1
                 continue
             traces.append(tr)
-        slim = [{k: t[k] for k in ('id', 'kind', 'pfacts', 'afacts', 'raised')} for t in traces]
+        slim = [{k: t[k] for k in ('id', 'kind', 'pfacts', 'afacts', 'raised', 'stable')} for t in traces]
         acc = 0
         rejects = []
         for i in range(0, len(slim), 400):
